@@ -183,6 +183,204 @@ def safe_load(text: str) -> Any:
     return YAML(typ="safe").load(text)
 
 
+# ------------------------------------------------------------------------------------------ text layer (mode T)
+class LitTag(str):
+    """a float node of a tree decoded from the text model: the string `float()` receives."""
+
+
+def enc_text_tree(v: Any) -> str:
+    """tree for the text model `FV/Model/YamlText.lean`: a float travels as Python's `repr(x)` (hex of its utf-8)."""
+    if v is None:
+        return "N"
+    if v is True:
+        return "T"
+    if v is False:
+        return "F"
+    if isinstance(v, int):
+        return f"I {v}"
+    if isinstance(v, float):
+        return "D " + enc_str(repr(v))
+    if isinstance(v, str):
+        return "S " + enc_str(v)
+    if isinstance(v, (list, tuple)):
+        return " ".join([f"L {len(v)}"] + [enc_text_tree(x) for x in v])
+    if isinstance(v, dict):
+        out = [f"M {len(v)}"]
+        for k, x in v.items():
+            out.append(enc_text_tree(k))
+            out.append(enc_text_tree(x))
+        return " ".join(out)
+    raise TypeError(type(v))
+
+
+def dec_text_tree(toks: list[str], i: int):
+    t = toks[i]
+    if t == "N":
+        return None, i + 1
+    if t == "T":
+        return True, i + 1
+    if t == "F":
+        return False, i + 1
+    if t == "I":
+        return int(toks[i + 1]), i + 2
+    if t == "D":
+        return LitTag(bytes.fromhex(toks[i + 1][1:]).decode("utf-8")), i + 2
+    if t == "S":
+        return bytes.fromhex(toks[i + 1][1:]).decode("utf-8"), i + 2
+    if t == "L":
+        n, i = int(toks[i + 1]), i + 2
+        out = []
+        for _ in range(n):
+            v, i = dec_text_tree(toks, i)
+            out.append(v)
+        return out, i
+    if t == "M":
+        n, i = int(toks[i + 1]), i + 2
+        d = []
+        for _ in range(n):
+            k, i = dec_text_tree(toks, i)
+            v, i = dec_text_tree(toks, i)
+            d.append((k, v))
+        return MapTag(d), i
+    raise ValueError(t)
+
+
+def text_tree_to_python(v: Any) -> Any:
+    """decoded text-model tree → plain Python objects (floats through `float()`)."""
+    if isinstance(v, MapTag):
+        return {text_tree_to_python(k): text_tree_to_python(x) for k, x in v.items}
+    if isinstance(v, list):
+        return [text_tree_to_python(x) for x in v]
+    if isinstance(v, LitTag):
+        return float(v)
+    return v
+
+
+def text_tree_diff(model: Any, impl: Any, path="") -> str | None:
+    """tree of the text model against the tree the YAML loader built (plain Python objects): types, order of keys, and
+    for a float the BITS of `float(literal)` (sign of zero included; nan matches nan)."""
+    if isinstance(model, MapTag):
+        if not isinstance(impl, dict) or len(impl) != len(model.items):
+            return f"{path}: dict shape ({len(model.items)} model entries)"
+        for (k1, v1), (k2, v2) in zip(model.items, impl.items()):
+            d = text_tree_diff(k1, k2, path + "/key") or text_tree_diff(v1, v2, f"{path}/{k2}")
+            if d:
+                return d
+        return None
+    if isinstance(model, list):
+        if not isinstance(impl, list) or len(impl) != len(model):
+            return f"{path}: list shape"
+        for j, (a, b) in enumerate(zip(model, impl)):
+            d = text_tree_diff(a, b, f"{path}[{j}]")
+            if d:
+                return d
+        return None
+    if isinstance(model, LitTag):
+        if type(impl) is not float:
+            return f"{path}: model float {model!r}, loader {type(impl).__name__} {impl!r}"
+        try:
+            f = float(model)
+        except ValueError:
+            return f"{path}: model float literal {model!r} is not accepted by float()"
+        if (f != f and impl != impl) or (f == impl and math.copysign(1.0, f) == math.copysign(1.0, impl)):
+            return None
+        return f"{path}: float({model!r}) = {f!r} != {impl!r}"
+    if type(model) is not type(impl) or model != impl:
+        return f"{path}: {model!r} ({type(model).__name__}) != {impl!r} ({type(impl).__name__})"
+    return None
+
+
+def model_tree_has_dup(m: Any) -> bool:
+    if isinstance(m, MapTag):
+        ks = [(type(k).__name__, repr(k)) for k, _ in m.items]
+        return len(set(ks)) != len(ks) or any(model_tree_has_dup(v) for _, v in m.items)
+    if isinstance(m, list):
+        return any(model_tree_has_dup(v) for v in m)
+    return False
+
+
+TEXT_IDENTS = ["a", "B", "k_1", "_", "_x9", "true", "True", "TRUE", "false", "False", "FALSE", "null", "Null", "NULL", "yes", "no",
+               "on", "off", "y", "n", "Y", "N", "inf", "nan", "e1", "E5", "x" * 40, "Modules", "area", "tRUE", "nULL", "Yes"]
+TEXT_FLOATS = [0.0, -0.0, 1.0, -1.5, 0.1, 1e-05, 0.0001, 1e16, 1e+22, 9999999999999998.0, 123456789.12345679, 5e-324,
+               1.7976931348623157e308, -2.5e-07, float("inf"), float("-inf"), float("nan"), 1 / 3, 2.0 ** 70, 2.0 ** -40]
+
+
+def gen_text_ident(rng) -> str:
+    """an identifier: one of the fixed pool (reserved words included) or a long one (line-width effects)."""
+    if rng.random() < 0.75:
+        return rng.choice(TEXT_IDENTS)
+    return rng.choice("abXY_") + "".join(rng.choice("abcXYZ_019") for _ in range(rng.choice([20, 50, 60, 66, 70, 72, 74, 76, 78, 90, 121])))
+
+
+def gen_text_scalar(rng):
+    k = rng.random()
+    if k < 0.3:
+        return gen_text_ident(rng)
+    if k < 0.5:
+        return rng.choice([0, 1, -1, 7, 10, 12345678901234567890, -99, 100, 2 ** 64])
+    if k < 0.8:
+        return rng.choice(TEXT_FLOATS) if rng.random() < 0.6 else rng.uniform(-1e3, 1e3) * 10 ** rng.randint(-20, 20)
+    if k < 0.9:
+        return rng.choice([True, False])
+    return rng.choice([[], {}])
+
+
+def gen_text_tree(rng, depth: int = 0):
+    """a random tree of the text model's subset `wfRoot` (any nesting of non-empty block mappings / sequences, scalars of
+    every class, keys = identifiers incl. the reserved words); fresh containers everywhere (no aliasing)."""
+    def node(d):
+        if d >= rng.choice([3, 4, 6]) or (d > 0 and rng.random() < 0.4):
+            return gen_text_scalar(rng)
+        n = rng.randint(1, 4)
+        if rng.random() < 0.5:
+            keys = []
+            while len(keys) < n:
+                k = gen_text_ident(rng)
+                if k not in keys:
+                    keys.append(k)
+            return {k: node(d + 1) for k in keys}
+        return [node(d + 1) for _ in range(n)]
+    t = node(0)
+    while not isinstance(t, (list, dict)) or len(t) == 0:
+        t = node(0)
+    return t
+
+
+def mutate_text(rng, text: str) -> str:
+    """one small edit of a YAML text: a character deleted / inserted / replaced, a line duplicated / deleted / swapped /
+    indented / dedented (most results are outside the text model's subset: only the accepted ones are compared)."""
+    k = rng.choice(["del", "ins", "dupline", "swap", "indent", "dedent", "repl", "delline", "tok"])
+    lines = text.split("\n")[:-1]
+    if not text or not lines:
+        return text + "a: 1\n"
+    if k in ("del", "ins", "repl"):
+        p = rng.randrange(len(text))
+        c = rng.choice(" -:'.e_a0T1\n#[]{},~+")
+        if k == "del":
+            return text[:p] + text[p + 1:]
+        if k == "ins":
+            return text[:p] + c + text[p:]
+        return text[:p] + c + text[p + 1:]
+    i = rng.randrange(len(lines))
+    if k == "dupline":
+        lines.insert(i, lines[i])
+    elif k == "delline":
+        del lines[i]
+    elif k == "swap" and len(lines) > 1:
+        j = rng.randrange(len(lines))
+        lines[i], lines[j] = lines[j], lines[i]
+    elif k == "indent":
+        lines[i] = " " * rng.choice([1, 2, 2, 4]) + lines[i]
+    elif k == "dedent" and lines[i].startswith("  "):
+        lines[i] = lines[i][2:]
+    elif k == "tok":       # replace the last token of a line by another scalar
+        head, sep, _ = lines[i].rpartition(" ")
+        lines[i] = head + sep + rng.choice(["null", "~", "True", "FALSE", "'null'", "-0", "007", "1_0", "0x1f", "1e5", "1.5e+3",
+                                            ".inf", "-.inf", ".nan", ".5", "5.", "yes", "No", "[]", "{}", "''", "'a b'", "+1",
+                                            "12", "-3.25", "1e-07", "Null", "a-b", "_", "x:y", "@", "0o17", "2024-01-01"])
+    return "\n".join(lines) + "\n"
+
+
 # ------------------------------------------------------------------------------------------ implementation side
 def set_eps(eps) -> None:
     if eps is None:
@@ -240,7 +438,7 @@ def render_impl(n: Netlist, mode: str) -> str:
         s += f" R {len(m.rectangles)}"
         for r in m.rectangles:
             s += " " + render_rect(r, mode)
-        s += f" area {_d(m.area(), mode)}"
+        s += f" area {_d(m.area(), mode)} S {int(m.has_stog)}"
         out.append(s)
     out.append(f"nets {len(n.edges)}")
     for e in n.edges:
